@@ -81,6 +81,9 @@ def run_harnesses(scratch, package, harnesses, timeout_s, jobs, log, extra=None)
                 continue
             if st == "Failure":
                 desc = c.get("description", "")
+                if desc.startswith("NaN on ") or desc.startswith("arithmetic overflow on floating-point"):
+                    # CBMC's optional float diagnostics: producing NaN/inf is not a panic in Rust
+                    continue
                 if cat in ("unwind", "unwinding") or "unwinding assertion" in desc:
                     undecided_reason = "unwinding assertion failed: bound too small for this input (tool limit)"
                 elif cat == "unsupported_construct" or "not currently supported by Kani" in desc:
